@@ -42,7 +42,7 @@ StrConsts == { S("hi"), S("a b!"), S("l1\nl2"), S(""), S("(x") }
 NonConst == { Var("x"), Pro, Idx(Var("x"), N(0)), Call("f", <<N(1)>>), RollE(Var("x")), Lit(Bool(TRUE)), Lit(Null), Lit(Myst) }
 PLits == { PLit(<<PW("abc"), PW("de")>>), PLit(<<PW("a"), PD, PW("ab"), PS("'s")>>) }
 Atoms == Consts \cup StrConsts \cup NonConst
-AtomsQ == { N(0), N(3), Lit(Fin(32)), N(-5), S("hi"), Var("x"), Pro, Call("f", <<N(1)>>), RollE(Var("x")), Lit(Bool(TRUE)) }
+AtomsQ == { N(0), N(3), Lit(Fin(32)), N(-5), S("hi"), Var("x"), Pro, Call("f", <<N(1)>>), RollE(Var("x")), Lit(Bool(TRUE)), Lit(Null), Lit(Myst) }
 Ops == { "plus", "minus", "times", "over", "lt", "and", "eq" }
 
 E1(A) == { Un(o, a) : o \in {"neg", "not"}, a \in A } \cup { Bin(o, a, <<b>>) : o \in Ops, a \in A, b \in A }
@@ -128,11 +128,11 @@ ReportShape ==
   c.k = "lint" =>
     LET r == LI!Report(c.prog) IN LI!SortedByLine(r) /\ LI!PassOrderOnTies(r) /\ LI!RepeatedExact(c.prog)
 (* C16 on the model *)
-WalkShape == c.k = "visit" => VS!EachOnceInOrder(c.prog)
+WalkShape == c.k = "visit" => VS!EachOnceInOrder(c.prog) /\ VS!PresentationCoversWalk(c.prog)
 
 Emit ==
   CASE c.k = "fold"  -> PrintT(<<"R", ToJson([fam |-> "fold", e |-> c.e, num |-> LI!FoldNum(c.e), str |-> LI!FoldStr(c.e)])>>)
     [] c.k = "lint"  -> PrintT(<<"R", ToJson([fam |-> "lint", prog |-> c.prog, report |-> LI!Report(c.prog)])>>)
-    [] c.k = "visit" -> LET w == VS!WProgram(c.prog) IN PrintT(<<"R", ToJson([fam |-> "visit", prog |-> c.prog, log |-> w.log, term |-> w.term])>>)
+    [] c.k = "visit" -> LET w == VS!WProgram(c.prog) IN PrintT(<<"R", ToJson([fam |-> "visit", prog |-> c.prog, log |-> w.log, term |-> w.term, full |-> VS!SProgram(c.prog)])>>)
     [] OTHER -> TRUE
 =============================================================================
